@@ -34,19 +34,38 @@ def copy_a():
 class Modes:
     """Builds the execution modes of one grammar lazily; records build errors."""
 
-    def __init__(self, grammar_text: str, modes: list[str]):
+    def __init__(self, grammar_text: str, modes: list[str], dedupe: bool = False):
         self.text = grammar_text
         self.parsers: dict[str, Any] = {}
         self.errors: dict[str, str] = {}
         self.sources: dict[str, str] = {}
         self._copies: dict[str, Any] = {}
+        self.aliases: dict[str, str] = {}  # mode -> earlier mode with an identical rule tree / source
+        sigs: dict[tuple, str] = {}
         for m in modes:
             try:
-                self.parsers[m] = self._build(m)
+                p = self._build(m)
             except (symx.Unsupported, symx.Inconclusive):
                 raise
             except Exception as e:  # noqa: BLE001
                 self.errors[m] = f"{type(e).__name__}: {str(e)[:200]}"
+                continue
+            sig = self._signature(m, p)
+            if dedupe and sig is not None and sig in sigs:
+                self.aliases[m] = sigs[sig]
+                continue
+            if sig is not None:
+                sigs[sig] = m
+            self.parsers[m] = p
+
+    def _signature(self, m: str, p):
+        """Modes whose rule trees (interpreted) or sources (generated) are identical behave identically."""
+        try:
+            if m.partition(":")[0] in ("I", "IO"):
+                return ("tree", p.tree_view(), "SKIP" in p.rules)
+            return ("src", self.sources.get(m))
+        except Exception:  # noqa: BLE001
+            return None
 
     def _copy_for(self, cfg: str):
         if cfg == "":
@@ -64,7 +83,7 @@ class Modes:
             src = p.generate()
             self.sources[m] = src
             return copy_a().exec_generated(src)
-        cp = self._copy_for("opt:" + cfg)
+        cp = self._copy_for("opt")  # one fresh copy per unit for every optimized configuration
         if base == "IO":
             if cfg:
                 by_name = {s.name: s for s in cp.pest.DEFAULT_OPTIMIZER_PASSES}
@@ -427,7 +446,7 @@ def run_member(task: dict) -> dict:
     oracle = ORACLES[prop]
     t_end = time.time() + task.get("budget_s", 120)
     try:
-        modes = Modes(member["text"], task["modes"])
+        modes = Modes(member["text"], task["modes"], dedupe=prop == "C02")
     except (symx.Unsupported, symx.Inconclusive) as e:
         res["inconclusive"].append(("build", str(e)))
         return res
